@@ -15,6 +15,8 @@ Ltac bridge := intros; cbv beta delta [
   gen_olb_body_start gen_olb_hdr_row_start gen_olb_hdr_col gen_olb_newline gen_fastq_offsets gen_fastq_n_lines
   gen_fastq_header gen_fastq_plus gen_fastq_plus_position gen_vcf_pos_eager gen_vcf_pos_lazy gen_vcf_pos_field
   gen_write_emits_header gen_stream_skips_empty gen_append_flag_a gen_append_flag_w
+  gen_sam_from_data_joins_fields gen_sam_tags_start gen_sam_tags_step gen_sam_no_tags gen_sam_cell_end gen_sam_drop_index
+  m_sam_eager_joins_fields m_sam_no_tags m_sam_cell_end m_sam_drop_index
   m_fasta_n_lines m_fasta_last_length m_fasta_total m_fasta_fill m_fasta_first_start m_fasta_entry_step
   m_fasta_has_lines m_fasta_last_index m_fasta_last_value m_fasta_hdr_value m_fasta_body_len
   m_fasta_last_before_header m_line_len m_join_nl_start m_sep m_newline m_fastq_offsets m_fastq_n_lines
@@ -114,4 +116,18 @@ Proof. bridge. Qed.
 Lemma b_append_flag_a : forall gz, gen_append_flag_a = mode_is_ab_fixed true gz.
 Proof. bridge. Qed.
 Lemma b_append_flag_w : forall gz, gen_append_flag_w = mode_is_ab_fixed false gz.
+Proof. bridge. Qed.
+
+(* ---- buffers/sam.SAMBuffer.from_data / join_fields ---- *)
+Lemma b_sam_from_data : gen_sam_from_data_joins_fields = m_sam_eager_joins_fields.
+Proof. bridge. Qed.
+Lemma b_sam_tags_start : forall n : nat, (1 <= n)%nat -> gen_sam_tags_start (Z.of_nat n) = Z.of_nat (m_join_nl_start n).
+Proof. bridge. Qed.
+Lemma b_sam_tags_step : forall n, gen_sam_tags_step n = n.
+Proof. bridge. Qed.
+Lemma b_sam_no_tags : forall l, gen_sam_no_tags l = m_sam_no_tags l.
+Proof. bridge. Qed.
+Lemma b_sam_cell_end : forall c, gen_sam_cell_end c = m_sam_cell_end c.
+Proof. bridge. Qed.
+Lemma b_sam_drop_index : forall r n, gen_sam_drop_index r n = m_sam_drop_index r n.
 Proof. bridge. Qed.
